@@ -3,6 +3,7 @@ import re
 
 from .. import builtins as B
 from .. import rettags as RT
+from ..analysis import strip_through
 from ..analysis import (Branches, CallGraph, Origins, blocks_separate, cfg_cycles, edge_dominates, fmt_terms,
                         reach_avoiding, term_mentions)
 from ..build import read_manifests
@@ -111,8 +112,26 @@ def check_parse_side(ctx, lib):
     # Runtime::compile: errors of parse are returned unchanged (map on Ok only)
     rc = ctx.fn("runtime::Runtime::compile", rule=rule)
     if rc is not None:
-        names = [t["callee"] for _, t in rc.calls()]
-        ctx.check(names == ["parser::parse", "std::result::Result::<T, E>::map"], rule, "compile-returns-parse-error", f"compile returns parse's error unchanged (calls {names})", rc.span)
+        # whatever the spelling (map, `?`, match): an Err result is parse's own result / error payload, nothing else builds an error
+        o = Origins(rc, lib)
+        pcs = [t for _, t in rc.calls() if t["callee"] == "parser::parse"]
+        ok = len(pcs) == 1 and o.of_operand(pcs[0]["args"][0]) == {("param", 2)}
+
+        def from_parse(t):
+            t = strip_through(t)
+            return t[0] == "call" and t[1] == "parser::parse"
+
+        for t in o.of_local(0):
+            if from_parse(t):
+                continue
+            if t[0] == "agg" and t[1] == "std::result::Result::Ok":
+                continue
+            if t[0] == "agg" and t[1] == "std::result::Result::Err" and len(t[2]) == 1 and t[2][0] and all(from_parse(x) for x in t[2][0]):
+                continue
+            ok = False
+        builds = [t["callee"] for _, t in rc.calls() if "JmespathError" in t["callee"]] + \
+            [s["rv"]["adt"] for _, _, s in rc.stmts() if s["k"] == "assign" and s["rv"]["k"] == "agg" and "JmespathError" in str(s["rv"].get("adt"))]
+        ctx.check(ok and not builds, rule, "compile-returns-parse-error", f"compile returns parse's error unchanged (result {fmt_terms(o.of_local(0))[:120]})", rc.span)
 
 
 def ordinal(b, blk, callee):
@@ -245,7 +264,12 @@ def dead_new_site(lib, cg, b, bb, t, sigs, ap_off):
             else:
                 nxt.add(x)
         opt = nxt
+    # a pass-through arm is None only if its receiver is: judge the receiver
+    opt = {strip_through(x) for x in opt}
     for x in opt:
+        if x[0] == "agg" and x[1] == "std::option::Option::Some":
+            reasons.append("Some(..) built on the spot")
+            continue
         if x[0] == "view":
             kind = {"array": "Array", "object": "Object", "string": "String", "number": "Number", "boolean": "Bool", "expref": "Expref", "null": "Null"}[x[1]]
             if cx is None:
